@@ -16,7 +16,8 @@ SUB = {'s': {'x': {'_default': 0, '_emit': True},
              'm': {'_default': 4, '_divider': 'split', '_emit': True}}}
 
 KINDS = ['add', 'delete', 'generate', 'divide', 'divide_copy', 'move_out',
-         'move_in', 'generate_same', 'add_touch', 'generate_over']
+         'move_in', 'generate_same', 'add_touch', 'generate_over',
+         'generate_into']
 
 
 def is_live(obj):
@@ -237,6 +238,21 @@ def make_ops(ctx, kinds, ts_g, d, flavor, fresh_values=None):
                 CTX['issued'].append(('delete', l1[0]))
                 CTX['has_proc'].discard(l1[0])
                 return {'loc1': {'_delete': [l1[0]]}}
+            if label == 'generate_into':
+                # a _generate without key that adds one more process to a
+                # compartment that exists (nested under the addressed store)
+                c = [k for k in l1 if k in CTX['has_proc']]
+                if not c:
+                    return {}
+                extra = Grow({'ts': ts_g, 'd': d})
+                CREATED.add(id(extra))
+                CTX.setdefault('agents', []).append(extra)
+                name = 'extra%d' % fid[0]
+                CTX['issued'].append(('generate_into', c[0], name))
+                return {'loc1': {'_generate': [dict(
+                    processes={c[0]: {name: extra}},
+                    topology={c[0]: {name: {'s': ('s',)}}},
+                    initial_state={})]}}
             if label in ('generate', 'generate_same', 'generate_over'):
                 a = agent(ts_g, d, flavor)
                 key = 'g%d' % fid[0]
